@@ -761,8 +761,8 @@ def compare_fine(ctx, harness, rep, stats):
             if bad <= 3:
                 spec = [p for p in probs if p == "deadlock" or p.startswith("violated") or p.startswith("harness-assertion")]
                 ctx.violation("fine:" + lines[i], "real threadpool.c at lock/unlock granularity (%s) %s: %s" % (
-                    lines[i], "violates the property" if spec else "is not the model's behaviour on the derived coarse schedule "
-                    "(a lock-free segment is not thread-private?)", "; ".join(probs)[:900]),
+                    lines[i], "violates the property" if spec else "is not the models' behaviour (fine model step by step / base model on the derived coarse schedule: "
+                    "a lock-free segment is not thread-private?)", "; ".join(probs)[:900]),
                     {"fine_line": lines[i], "impl": impl[i][:20000], "model": mo, "problems": probs}, found_input=bool(spec))
     need(sync > len(idx) and fsteps > 10 * len(vidx), "fine mode produced no comparable snapshots")
     stats["fine"] = {"schedules": len(lines), "answered": len(idx), "fine_steps": steps, "state_comparisons": sync,
